@@ -484,7 +484,17 @@ Proof.
 Qed.
 
 Lemma safe_lift {A} (P : A -> Prop) (x : Result A) : x <> Panic -> (forall a, x = Ok a -> P a) -> safeP P (lift x).
-Proof. intros Hx HP bs Hbs. unfold lift. destruct x; auto. now elim Hx. Qed.
+Proof. intros Hx HP bs Hbs. unfold lift. destruct x; auto. Qed.
+
+Ltac norm_bools :=
+  cbv beta in *;
+  repeat match goal with H : negb _ = false |- _ => apply negb_false_iff in H end;
+  repeat match goal with
+         | H : (_ =? _) = false |- _ => apply Z.eqb_neq in H
+         | H : (_ >? _) = false |- _ => rewrite Z.gtb_ltb in H; apply Z.ltb_ge in H
+         | H : (_ <? _) = false |- _ => apply Z.ltb_ge in H
+         | H : (_ >=? _) = false |- _ => rewrite Z.geb_leb in H; apply Z.leb_gt in H
+         end.
 
 Lemma safe_read_FieldExtension : safeP (fun _ => True) read_FieldExtension.
 Proof.
@@ -509,8 +519,7 @@ Proof.
   destruct (negb (is_pow2 ff) || (ff <? 2) || (ff >? 16)) eqn:C4; [apply safe_fail|].
   destruct (negb (is_pow2 (rd + 1)) || (rd >? 255)) eqn:C5; [apply safe_fail|].
   repeat match goal with H : orb _ _ = false |- _ => apply orb_false_elim in H; destruct H end.
-  repeat match goal with H : negb _ = false |- _ => apply negb_false_iff in H end.
-  rewrite ?Z.eqb_neq, ?Z.gtb_ltb, ?Z.ltb_ge in *.
+  norm_bools.
   assert (E : ProofOptions_new nq bf gf fe ff rd =
               Ok (mkPO (wrap 8 nq) (wrap 8 bf) (wrap 8 gf) fe (wrap 8 ff) (wrap 8 rd)))
     by (apply ProofOptions_new_ok; auto; lia).
@@ -538,9 +547,10 @@ Proof.
     intros bs Hbs. unfold read_vec, read_slice. destruct (n <=? len bs) eqn:Cn; [|exact I].
     unfold read_array. destruct (take (Z.to_nat n) bs) as [[h t]|] eqn:E; [|exact I].
     destruct (take_is_bytes _ _ _ _ E Hbs). destruct (take_length _ _ _ _ E) as [_ Hl].
-    repeat split; auto. unfold len. rewrite Hl. change (256 ^ Z.of_nat 2) with 65536 in Hn. lia. }
+    cbv beta in Hn. change (256 ^ Z.of_nat 2) with 65536 in Hn.
+    repeat split; auto. unfold len. rewrite Hl, Z2Nat.id by lia. lia. }
   intros meta [Hmeta Hlen].
-  rewrite ?Z.eqb_neq, ?Z.gtb_ltb, ?Z.ltb_ge, ?Z.geb_leb, ?Z.leb_gt in *.
+  norm_bools.
   assert (Hp : 2 ^ 3 <= 2 ^ e < 2 ^ 64).
   { split; [apply Z.pow_le_mono_r; lia | apply Z.pow_lt_mono_r; lia]. }
   change (2 ^ 3) with 8 in Hp.
